@@ -13,3 +13,33 @@ pub struct TableEntry {
     /// `None` for an entry that carries no signature
     pub signature: Option<(Vec<String>, String)>,
 }
+
+/// One slot of the type checker's union-find table (`UnionFind::inner`), as
+/// far as `UnionFind::find` looks at it: for a type-variable-like `Type` the
+/// name of its constructor and the index it carries, and in any case the
+/// `Debug` text of the type (an opaque payload for the checks).
+#[derive(Clone, Debug, PartialEq, Eq)]
+pub struct UfSlot {
+    /// `Some(("Var" | "IntVar" | "FloatVar" | "RecordVar", index))`, or
+    /// `Some(("ExplicitVar", 0))`; `None` for every other type
+    pub var: Option<(&'static str, usize)>,
+    /// `format!("{:?}")` of the type
+    pub text: String,
+}
+
+/// Describe one `Type` as a [`UfSlot`].
+pub fn uf_slot(t: &crate::typechecker::types::Type) -> UfSlot {
+    use crate::typechecker::types::Type;
+    let var = match t {
+        Type::Var(i) => Some(("Var", *i)),
+        Type::IntVar(i, _) => Some(("IntVar", *i)),
+        Type::FloatVar(i) => Some(("FloatVar", *i)),
+        Type::RecordVar(i, _) => Some(("RecordVar", *i)),
+        Type::ExplicitVar(_) => Some(("ExplicitVar", 0)),
+        _ => None,
+    };
+    UfSlot {
+        var,
+        text: format!("{t:?}"),
+    }
+}
